@@ -1,5 +1,6 @@
 (* Properties_C17.v — C17: timestamp offsets are exact, invertible and never negative within a block. *)
 Require Import Base Timestamp TimestampProofs.
+Require Import Cbor EncoderModel DecoderModel Schema Block BlockProofs Exporter ExporterProofs E2ESpec BlockRead FileProofs.
 Local Open Scope Z_scope.
 
 (* offset of one timestamp from another = exact signed tick difference *)
@@ -63,6 +64,23 @@ Proof.
   rewrite H1, (H4 Hn). reflexivity.
 Qed.
 Print Assumptions C17_block_offsets.
+
+(* THE BLOCKS THE EXPORTER BUILDS (not an abstraction of them): over every admissible API history every block — written or still
+   buffered — satisfies [good_blk]: its earliest time is a normalised in-range instant not later than any stored query/response or
+   malformed-message time ([time_inv]), whatever the interleaving of timed / untimed / unstorable records and hint settings *)
+Theorem C17_blocks_of_histories : forall ops x hn, good_inv x -> adm x hn ops -> good_inv (xrun x ops).
+Proof. exact xrun_good. Qed.
+Print Assumptions C17_blocks_of_histories.
+(* ... hence, in such a block, writing each record time as an offset from the earliest time (as CdnsBlock::write does, through the
+   uint64 cast) and adding it back (as CdnsBlockRead::read does, through the int64 reinterpretation) returns every item unchanged:
+   all offsets are non-negative and every record time is recovered exactly *)
+Theorem C17_block_offsets_roundtrip : forall b, time_inv b ->
+  resolve_all (b_earliest b) (bp_tps (b_bp b)) (map (conv_item (b_earliest b) (bp_tps (b_bp b))) (b_qrs b)) = Some (b_qrs b) /\
+  resolve_all (b_earliest b) (bp_tps (b_bp b)) (map (conv_item (b_earliest b) (bp_tps (b_bp b))) (b_mms b)) = Some (b_mms b).
+Proof.
+  intros b (H1 & H2 & H3 & Hq & Hm). split; apply resolve_all_conv; auto.
+Qed.
+Print Assumptions C17_block_offsets_roundtrip.
 
 Example C17_nonvacuous :
   rate_ok 1000000 /\ ts_ok (mkTs 1600000000 999999) 1000000 /\ i64 (- M63) /\
